@@ -16,6 +16,10 @@ func main() {
 		configMain(args)
 	case "C15":
 		termMain(args)
+	case "C18":
+		filterMain(args)
+	case "C16":
+		mirrorE2EMain(args)
 	case "C01", "C12", "C13":
 		blastMain(args, args.Prop)
 	default:
